@@ -529,3 +529,38 @@ Proof.
   split; [vm_compute; reflexivity|]. split; [vm_compute; reflexivity|].
   split; vm_compute; reflexivity.
 Qed.
+
+(* ------------------------------------------------------------------ the guards are met by
+   reachable states (the theorems above are not vacuous) *)
+Definition zw_ops : list vop :=
+  [VoPoll []; VoDeliver (wmsg ST_DATA 1 100 528); VoDeliver (wmsg ST_DATA 2 100 528); VoPoll [];
+   VoRead 3000; VoPoll []].
+
+(* receive buffer of two segments, two full segments delivered: the window advertised is zero, the
+   MSS is the creation-time one, the dispatcher waker IS registered *)
+Lemma zero_window_guard_nonvacuous :
+  exists w cfg ops,
+    vconfig_ok cfg = true /\ Forall op_msg_ok ops /\
+    existsb (fun st => zero_window_guard st && negb (c02_d9_class cfg st)) (wtrace w cfg ops) = true /\
+    forallb (c02_zero_window_waker cfg) (wtrace w cfg ops) = true.
+Proof.
+  exists 1056, (wcfg 1056), zw_ops.
+  split; [vm_compute; reflexivity|]. split.
+  { repeat constructor; cbv [op_msg_ok msg_ok wmsg m_hdr ch_type m_payload]; vm_compute; discriminate. }
+  split; vm_compute; reflexivity.
+Qed.
+
+(* data outstanding, our FIN not: the case c02_rto_armed_step_nofin covers (witness of D14) *)
+Lemma rto_armed_nofin_nonvacuous :
+  exists w cfg ops,
+    vconfig_ok cfg = true /\ Forall op_msg_ok ops /\
+    existsb (fun st => data_outstanding (fs_post st) && negb (fin_outstanding (fs_post st)) &&
+                       negb (f_transport_pending (fs_post st)) &&
+                       match fs_result st with FrPoll PollPending _ _ _ => true | _ => false end)
+            (wtrace w cfg ops) = true /\
+    forallb (c02_rto_armed cfg) (wtrace w cfg ops) = true.
+Proof.
+  exists 1056, d14_cfg, d14_ops.
+  split; [vm_compute; reflexivity|]. split; [repeat constructor|].
+  split; vm_compute; reflexivity.
+Qed.
